@@ -187,6 +187,37 @@ CHECKS = {
              "repaired by a fix: commit.",
         technique="Coq proof (round trip through the declaration model, nested induction) + ast-level correspondence + direct oracle",
         design="6 C06"),
+    "C01": dict(
+        text="Theorem gen_sound / gen_validates (Coq, all well-formed schemas of any nesting, every world, EVERY tape = every "
+             "outcome of every random draw): if the schema is hereditarily satisfiable within the generator's reach "
+             "(sat: fixed values conform, bounds ordered, lengths compatible incl. bounds beyond the generator defaults "
+             "and the ellipsis-list/len padding, substr over the alphabet, every member the generator may visit "
+             "satisfiable) the model generator returns a value and the validator accepts it with zero errors. The "
+             "property's wider quantifier (any schema admitting some value) is stated and REFUTED for the faithful "
+             "model (gen_sound_full_refuted; witnesses for F24, F07, F06 replay on /repo) - partial in that sense; "
+             "patterns rely on C09's regen_validates and a totality premise re_total. Tie: the real generator under "
+             "tape policies all-min/all-max/alternating/random with a fixed world vs the model on the same tape (value, "
+             "exception class, number of draws); tables of generator constants regenerated every run; oracle on /repo: "
+             "validate(S, fake(S)) for satisfiable S under those tapes and under the real seeded RNG.",
+        note=COMMON_NOTE + "Open known findings: F06 (precision grid with a bound), F07 (empty alphabet), F23 (uniform "
+             "overflow; outside the tape contract, seen only with the real RNG), F24 (unsatisfiable member may be "
+             "visited). F04, F05 repaired by fix: commits.",
+        technique="Coq proof (returns-predicate over the tape monad, nested induction) + refutation witnesses by vm_compute + tape-scripted vm_compute correspondence + direct oracle",
+        design="6 C01"),
+    "C09": dict(
+        text="Theorems (Coq, EVERY pattern tree - supported or not -, every tape, every set-iteration order): "
+             "regen_fullmatch (whatever the generator returns matches the whole pattern, for end-anchored patterns), "
+             "regen_unsupported_raises (an unsupported construct on a mandatory path makes generation raise for every "
+             "tape), matches_top_iff_fullmatchb + fullmatch_search + regen_validates (the generated string passes the "
+             "validator's re.search), alphabet facts re-checked by vm_compute on the regenerated tables. Tie: patterns "
+             "from the supported grammar plus each unsupported construct embedded, sre.parse tree abstracted, real "
+             "RegexGenerator under tape policies vs the model (string / exception / draws); oracle: re.fullmatch, "
+             "validate, fake(schema.str.regex(p)); semantics suite fullmatchb/searchb vs re on generated and perturbed "
+             "strings.",
+        note=COMMON_NOTE + "Python's re engine on the supported fragment is trusted + differentially tested (ASCII "
+             "reading of \\d/\\w). Inner anchors, \\b, inline flags are outside the property's list. F17 repaired.",
+        technique="Coq proof (induction over the sre tree, derivative-matcher correspondence) + tape-scripted vm_compute correspondence + direct oracle",
+        design="6 C09"),
 }
 
 
